@@ -44,6 +44,11 @@ Definition model_policies (root : N) (all : list pa) : list authz :=
    carries the tlsMode=istio transport-socket match, whether the EDS endpoints carry tlsMode=istio metadata *)
 Inductive hstep := HStep (all : list pa) (o_srv : mode) (o_chains : list (chain * option bool)) (o_cds o_eds : bool).
 
+(* one probed destination port of a real virtualInbound listener: its listener protocol (HTTP / TCP service port,
+   Auto for passthrough), whether the port has chains of its own, and the chains that serve it (its own, else the
+   catch-all passthrough chains).  Port 0 is the catch-all itself. *)
+Inductive lprobe := LProbe (port : N) (p : lproto) (dedicated : bool) (chains : list (chain * option bool)).
+
 Inductive case :=
 (* sidecar-side pipeline: initAuthenticationPolicies over [all]; for one workload:
    GetPeerAuthenticationsForWorkload keys (namespace, name), NewPolicyApplier(...).GetMutualTLSModeForPort
@@ -65,7 +70,10 @@ Inductive case :=
 | Ambient (id : N) (root : N) (all : list pa) (wl_ns : N) (labels : list (N * N)) (probes : list N)
     (o_keys : akeys) (o_static_exists : bool) (o_policies : list authz)
 (* fake discovery server with warm xDS caches; HTTP service port *)
-| History (id : N) (root wl_ns : N) (labels : list (N * N)) (port : N) (steps : list hstep).
+| History (id : N) (root wl_ns : N) (labels : list (N * N)) (port : N) (steps : list hstep)
+(* BuildListeners for a server workload with service target ports [svc_ports] *)
+| Listener (id : N) (root : N) (all : list pa) (wl_ns : N) (labels : list (N * N)) (svc_ports : list N)
+    (probes : list lprobe).
 
 Definition case_id c :=
   match c with
@@ -76,6 +84,7 @@ Definition case_id c :=
   | Keys id _ _ _ => id
   | Ambient id _ _ _ _ _ _ _ _ => id
   | History id _ _ _ _ _ => id
+  | Listener id _ _ _ _ _ _ => id
   end.
 
 Definition model_ok (c : case) : bool :=
@@ -110,6 +119,15 @@ Definition model_ok (c : case) : bool :=
         Bool.eqb (negb (mode_eqb (best_effort_infer (add_peer_authentication root all) wl_ns) MDisable)) o_cds &&
         (* EDS: mtls_checker.go checkMtlsEnabled *)
         Bool.eqb (check_mtls_enabled root all wl_ns labels port) o_eds end) steps
+  | Listener _ root all wl_ns labels svc_ports probes =>
+      let st := add_peer_authentication root all in
+      let mg := compose root (configs_for_workload root (st_kept st) wl_ns labels []) in
+      forallb (fun pr => match pr with LProbe port p dedicated chains =>
+        let m := mode_for_port mg port in
+        (* listener_inbound.go buildInboundListeners / buildInboundPassthroughChains + authn Builder.ForPassthrough:
+           service target ports and every non-service port of PortLevelSetting() get chains of their own *)
+        Bool.eqb dedicated (negb (N.eqb port 0) && (memN port svc_ports || is_some (assoc port (m_ports mg)))) &&
+        list_eqb chain_sock_eqb (with_sockets m (chain_opts m p)) chains end) probes
   end.
 
 (* no workload-level policy applies to the workload: the namespace resolver is then the whole story *)
@@ -156,6 +174,11 @@ Definition prop_ok (c : case) : bool :=
         | MDisable | MUnset => negb client_mtls
         | MPermissive => true
         end end) steps
+  | Listener _ root all wl_ns labels _ probes =>
+      (* the chains serving each probed port enforce that port's effective mode: plaintext accepted iff not STRICT,
+         mutual TLS terminated iff not DISABLE *)
+      forallb (fun pr => match pr with LProbe port _ _ chains =>
+        enforces (effective_mode root all wl_ns labels port) chains end) probes
   end.
 
 Definition mismatches := check_all case_id model_ok prop_ok.
